@@ -1,4 +1,4 @@
-use super::swift_utils::{parse_max_length, parse_swift_chars};
+use super::swift_utils::{parse_length_range, parse_swift_chars};
 use crate::errors::ParseError;
 use crate::traits::SwiftField;
 use serde::{Deserialize, Serialize};
@@ -27,7 +27,7 @@ impl SwiftField for Field21NoOption {
         Self: Sized,
     {
         // Parse the reference with max length of 16
-        let reference = parse_max_length(input, 16, "Field 21 reference")?;
+        let reference = parse_length_range(input, 1, 16, "Field 21 reference")?;
 
         // Validate SWIFT character set
         parse_swift_chars(&reference, "Field 21 reference")?;
@@ -71,7 +71,7 @@ impl SwiftField for Field21C {
     where
         Self: Sized,
     {
-        let reference = parse_max_length(input, 35, "Field 21C reference")?;
+        let reference = parse_length_range(input, 1, 35, "Field 21C reference")?;
         parse_swift_chars(&reference, "Field 21C reference")?;
 
         if reference.starts_with('/') || reference.ends_with('/') {
@@ -111,7 +111,7 @@ impl SwiftField for Field21D {
     where
         Self: Sized,
     {
-        let reference = parse_max_length(input, 35, "Field 21D reference")?;
+        let reference = parse_length_range(input, 1, 35, "Field 21D reference")?;
         parse_swift_chars(&reference, "Field 21D reference")?;
 
         if reference.starts_with('/') || reference.ends_with('/') {
@@ -151,7 +151,7 @@ impl SwiftField for Field21E {
     where
         Self: Sized,
     {
-        let reference = parse_max_length(input, 35, "Field 21E reference")?;
+        let reference = parse_length_range(input, 1, 35, "Field 21E reference")?;
         parse_swift_chars(&reference, "Field 21E reference")?;
 
         if reference.starts_with('/') || reference.ends_with('/') {
@@ -191,7 +191,7 @@ impl SwiftField for Field21F {
     where
         Self: Sized,
     {
-        let reference = parse_max_length(input, 16, "Field 21F reference")?;
+        let reference = parse_length_range(input, 1, 16, "Field 21F reference")?;
         parse_swift_chars(&reference, "Field 21F reference")?;
 
         if reference.starts_with('/') || reference.ends_with('/') {
@@ -231,7 +231,7 @@ impl SwiftField for Field21R {
     where
         Self: Sized,
     {
-        let reference = parse_max_length(input, 16, "Field 21R reference")?;
+        let reference = parse_length_range(input, 1, 16, "Field 21R reference")?;
         parse_swift_chars(&reference, "Field 21R reference")?;
 
         if reference.starts_with('/') || reference.ends_with('/') {
